@@ -590,4 +590,231 @@ theorem encode_printable (t : Esc) (canon : List Char → Option (List Char)) (j
     encode t canon j = encS t canon j := by
   simp [encode, normalize_id t canon j hp]
 
+/-! ## JSON Lines: no line feed inside a record, the lines are found again -/
+
+theorem hexDigit_noLF : ∀ k : Fin 16, hexDigit k.val ≠ '\n' := by decide
+
+theorem hex4_noLF (m : Nat) : ∀ c ∈ hex4 m, c ≠ '\n' := by
+  have h (k : Nat) (hk : k < 16) := hexDigit_noLF ⟨k, hk⟩
+  intro c hc
+  simp only [hex4, List.mem_cons, List.not_mem_nil, or_false] at hc
+  rcases hc with rfl | rfl | rfl | rfl <;> exact h _ (Nat.mod_lt _ (by decide))
+
+theorem encodeRune_noLF (c : Char) : ∀ x ∈ encodeRune c, x ≠ '\n' := by
+  intro x hx
+  unfold encodeRune at hx
+  dsimp only at hx
+  split at hx
+  · simp only [List.mem_cons, List.mem_append] at hx
+    rcases hx with rfl | rfl | h | rfl | rfl | h
+    · decide
+    · decide
+    · exact hex4_noLF _ x h
+    · decide
+    · decide
+    · exact hex4_noLF _ x h
+  · simp only [List.mem_cons] at hx
+    rcases hx with rfl | rfl | h
+    · decide
+    · decide
+    · exact hex4_noLF _ x h
+
+theorem escChar_noLF (t : Esc) (c : Char) : ∀ x ∈ escChar t c, x ≠ '\n' := by
+  intro x hx
+  cases t with
+  | all => exact encodeRune_noLF c x hx
+  | hex =>
+    simp only [escChar, escHex] at hx
+    split at hx
+    · exact encodeRune_noLF c x hx
+    · rename_i h1
+      split at hx
+      · exact encodeRune_noLF c x hx
+      · simp only [List.mem_singleton] at hx
+        subst hx
+        intro e
+        exact h1 (Or.inr (Or.inr (Or.inr (Or.inr (Or.inr (Or.inl e))))))
+  | backslash =>
+    simp only [escChar, escBackslash] at hx
+    split at hx
+    · rename_i h1
+      simp only [List.mem_cons, List.not_mem_nil, or_false] at hx
+      rcases hx with rfl | rfl
+      · decide
+      · rcases h1 with rfl | rfl | rfl <;> decide
+    · split at hx
+      · simp only [List.mem_cons, List.not_mem_nil, or_false] at hx; rcases hx with rfl | rfl <;> decide
+      · split at hx
+        · simp only [List.mem_cons, List.not_mem_nil, or_false] at hx; rcases hx with rfl | rfl <;> decide
+        · rename_i hn
+          split at hx
+          · simp only [List.mem_cons, List.not_mem_nil, or_false] at hx; rcases hx with rfl | rfl <;> decide
+          · rename_i hn2
+            split at hx
+            · simp only [List.mem_cons, List.not_mem_nil, or_false] at hx; rcases hx with rfl | rfl <;> decide
+            · split at hx
+              · simp only [List.mem_cons, List.not_mem_nil, or_false] at hx; rcases hx with rfl | rfl <;> decide
+              · split at hx
+                · exact encodeRune_noLF c x hx
+                · simp only [List.mem_singleton] at hx
+                  subst hx
+                  exact hn2
+
+theorem escape_noLF (t : Esc) (s : List Char) : ∀ x ∈ escape t s, x ≠ '\n' := by
+  induction s with
+  | nil => simp [escape]
+  | cons c cs ih =>
+    intro x hx
+    simp only [escape, List.mem_append] at hx
+    rcases hx with h | h
+    · exact escChar_noLF t c x h
+    · exact ih x h
+
+theorem dc_noLF : ∀ d : Fin 10, dc d ≠ '\n' := by decide
+
+theorem digitsOf_noLF (ds : List (Fin 10)) : ∀ x ∈ digitsOf ds, x ≠ '\n' := by
+  intro x hx
+  obtain ⟨d, _, rfl⟩ := List.mem_map.mp hx
+  exact dc_noLF d
+
+theorem render_noLF (s : NumShape) : ∀ x ∈ render s, x ≠ '\n' := by
+  intro x hx
+  simp only [render, List.mem_append] at hx
+  rcases hx with h | h | h | h
+  · split at h
+    · simp only [List.mem_singleton] at h; subst h; decide
+    · simp at h
+  · exact digitsOf_noLF _ x h
+  · cases hf : s.frac with
+    | none => rw [hf] at h; simp [renderFrac] at h
+    | some f =>
+      rw [hf] at h
+      simp only [renderFrac, List.mem_cons] at h
+      rcases h with rfl | h
+      · decide
+      · exact digitsOf_noLF _ x h
+  · cases he : s.exp with
+    | none => rw [he] at h; simp [renderExp] at h
+    | some e =>
+      obtain ⟨u, sg, ds⟩ := e
+      rw [he] at h
+      simp only [renderExp, List.mem_cons, List.mem_append] at h
+      rcases h with rfl | h | h
+      · cases u <;> decide
+      · cases sg with
+        | none => simp [renderSign] at h
+        | some b => cases b <;> (simp only [renderSign, List.mem_singleton] at h; subst h; decide)
+      · exact digitsOf_noLF _ x h
+
+theorem quote_noLF (t : Esc) (s : List Char) : ∀ x ∈ quote t s, x ≠ '\n' := by
+  intro x hx
+  simp only [quote, List.mem_cons, List.mem_append, List.not_mem_nil, or_false] at hx
+  rcases hx with rfl | h | rfl
+  · decide
+  · exact escape_noLF t s x h
+  · decide
+
+mutual
+theorem encS_noLF (t : Esc) (canon : List Char → Option (List Char)) :
+    ∀ (j : JS), PrintableV t canon j → ∀ x ∈ encS t canon j, x ≠ '\n'
+  | .null, _ => by simp only [encS]; decide
+  | .bool true, _ => by simp only [encS]; decide
+  | .bool false, _ => by simp only [encS]; decide
+  | .str s, _ => by simp only [encS]; exact quote_noLF t s
+  | .num a, hp => by
+    simp only [PrintableV] at hp
+    obtain ⟨⟨s, _, rfl⟩, hc⟩ := hp
+    simp only [encS, numText, hc]
+    exact render_noLF s
+  | .arr is, hp => by
+    simp only [PrintableV] at hp
+    intro x hx
+    simp only [encS, List.mem_cons, List.mem_append, List.not_mem_nil, or_false] at hx
+    rcases hx with rfl | h | rfl
+    · decide
+    · exact encItems_noLF t canon is hp x h
+    · decide
+  | .obj ms, hp => by
+    simp only [PrintableV] at hp
+    intro x hx
+    simp only [encS, List.mem_cons, List.mem_append, List.not_mem_nil, or_false] at hx
+    rcases hx with rfl | h | rfl
+    · decide
+    · exact encMembers_noLF t canon ms hp x h
+    · decide
+
+theorem encItems_noLF (t : Esc) (canon : List Char → Option (List Char)) :
+    ∀ (is : List JS), PrintableL t canon is → ∀ x ∈ encItems t canon is, x ≠ '\n'
+  | [], _ => by simp [encItems]
+  | [y], hp => by
+    simp only [PrintableL] at hp
+    simp only [encItems]
+    exact encS_noLF t canon y hp.1
+  | y :: z :: zs, hp => by
+    simp only [PrintableL] at hp
+    intro x hx
+    simp only [encItems, List.mem_append, List.mem_cons] at hx
+    rcases hx with h | rfl | h
+    · exact encS_noLF t canon y hp.1 x h
+    · decide
+    · exact encItems_noLF t canon (z :: zs) (by simp only [PrintableL]; exact hp.2) x h
+
+theorem encMembers_noLF (t : Esc) (canon : List Char → Option (List Char)) :
+    ∀ (ms : List (List Char × JS)), PrintableM t canon ms → ∀ x ∈ encMembers t canon ms, x ≠ '\n'
+  | [], _ => by simp [encMembers]
+  | [(k, v)], hp => by
+    simp only [PrintableM] at hp
+    intro x hx
+    simp only [encMembers, List.mem_append, List.mem_cons] at hx
+    rcases hx with h | rfl | h
+    · exact quote_noLF t k x h
+    · decide
+    · exact encS_noLF t canon v hp.2.1 x h
+  | (k, v) :: m2 :: ms, hp => by
+    simp only [PrintableM] at hp
+    intro x hx
+    simp only [encMembers, List.mem_append, List.mem_cons] at hx
+    rcases hx with (h | rfl | h) | rfl | h
+    · exact quote_noLF t k x h
+    · decide
+    · exact encS_noLF t canon v hp.2.1 x h
+    · decide
+    · exact encMembers_noLF t canon (m2 :: ms) hp.2.2 x h
+end
+
+theorem splitLines_line (l : List Char) (hl : ∀ x ∈ l, x ≠ '\n') (acc rest : List Char) :
+    splitLines acc (l ++ '\n' :: rest) = (acc.reverse ++ l ++ ['\n']) :: splitLines [] rest := by
+  induction l generalizing acc with
+  | nil => simp [splitLines]
+  | cons c cs ih =>
+    have hc : c ≠ '\n' := hl c (by simp)
+    simp only [List.cons_append, splitLines, hc, if_false]
+    rw [ih (fun x hx => hl x (by simp [hx]))]
+    simp
+
+/-- lines that end in LF or CR LF and contain no other LF are found again -/
+theorem splitLines_lines (lines : List (List Char)) (cr : Bool) (hl : ∀ l ∈ lines, ∀ x ∈ l, x ≠ '\n') :
+    splitLines [] ((lines.map fun l => l ++ (if cr then ['\r', '\n'] else ['\n'])).flatten)
+      = lines.map fun l => l ++ (if cr then ['\r', '\n'] else ['\n']) := by
+  induction lines with
+  | nil => simp [splitLines]
+  | cons l ls ih =>
+    simp only [List.map_cons, List.flatten_cons]
+    cases cr with
+    | false =>
+      simp only [Bool.false_eq_true, if_false, List.append_assoc, List.cons_append, List.nil_append] at ih ⊢
+      rw [splitLines_line l (hl l (by simp)), ih (fun x hx => hl x (by simp [hx]))]
+      simp
+    | true =>
+      simp only [if_true, List.append_assoc, List.cons_append, List.nil_append] at ih ⊢
+      have : l ++ '\r' :: '\n' :: (List.map (fun l => l ++ ['\r', '\n']) ls).flatten
+          = (l ++ ['\r']) ++ '\n' :: (List.map (fun l => l ++ ['\r', '\n']) ls).flatten := by simp
+      rw [this, splitLines_line (l ++ ['\r']) (by
+        intro x hx
+        rcases List.mem_append.mp hx with h | h
+        · exact hl l (by simp) x h
+        · simp only [List.mem_singleton] at h; subst h; decide),
+        ih (fun x hx => hl x (by simp [hx]))]
+      simp
+
 end Csvq.Json
